@@ -323,7 +323,8 @@ class WellsSuite:
             # operations naming this id: must raise without emitting a record iff the id is unknown
             ops = {}
             for dev, cls in (("evo", robotools.EvoWorklist), ("fluent", robotools.FluentWorklist)):
-                for opn in ("aspirate", "dispense", "transfer_src", "transfer_dst", "distribute"):
+                for opn in ("aspirate", "dispense", "transfer_src", "transfer_dst", "transfer_bcast_dst", "transfer_bcast_src",
+                            "aspirate_second", "distribute", "distribute_second"):
                     wl = cls()
                     lw2 = self._mk(case)
                     other = robotools.Labware("O", 2, 2, min_volume=0, max_volume=1000, initial_volumes=100)
@@ -339,6 +340,16 @@ class WellsSuite:
                             wl.transfer(lw2, [w], other, ["A01"], 1)
                         elif opn == "transfer_dst":
                             wl.transfer(other, ["A01"], lw2, [w], 1)
+                        elif opn == "transfer_bcast_dst":  # one source, several destinations, the unknown id not first
+                            wl.transfer(other, "A01", lw2, ["A01", w], 1)
+                        elif opn == "transfer_bcast_src":  # several sources, one destination
+                            lw2._volumes[:] = 5
+                            wl.transfer(lw2, ["A01", w], other, "B02", 1)
+                        elif opn == "aspirate_second":
+                            lw2._volumes[:] = 5
+                            wl.aspirate(lw2, ["A01", w], 1)
+                        elif opn == "distribute_second":
+                            wl.distribute(tr, 0, lw2, ["A01", w], volume=1)
                         else:
                             wl.distribute(tr, 0, lw2, [w], volume=1)
                         ops[f"{dev}.{opn}"] = {"raised": None, "recs": len(wl)}
@@ -352,11 +363,16 @@ class WellsSuite:
         with warnings.catch_warnings():
             warnings.simplefilter("ignore")
             positions = lw.positions
+        raised = []
         for row in wells:
             for w in row:
                 r, c = lw.indices[w]
-                tbl.append([w, int(r), int(c), int(positions[w]), int(evo_pos(lw, w)), int(fl_pos(lw, w))])
-        return {"wells": wells, "tbl": tbl, "n_rows": lw.n_rows, "n_columns": lw.n_columns, "shape": list(lw.shape),
+                pe, pf = call(evo_pos, w), call(fl_pos, w)
+                for dev, o in (("evo", pe), ("fluent", pf)):
+                    if o["err"]:
+                        raised.append(f"{dev}: get_well_position raised {o['exc']} for the valid id {w}")
+                tbl.append([w, int(r), int(c), int(positions.get(w, -1)), pe["val"] if not pe["err"] else -1, pf["val"] if not pf["err"] else -1])
+        return {"wells": wells, "tbl": tbl, "raised": raised[:5], "n_rows": lw.n_rows, "n_columns": lw.n_columns, "shape": list(lw.shape),
                 "nkeys": len(lw.indices), "npos": len(positions), "vshape": list(lw.volumes.shape)}
 
     def emit(self, case, obs):
@@ -405,6 +421,7 @@ class WellsSuite:
                         bad.append(f"unknown-id: {name} with unknown id {w!r} raised {o['raised']} but left {o['recs']} record(s)")
             return bad[:4]
         nids = R
+        bad += list(obs.get("raised", []))
         want_wells = [[wid(r, c) for c in range(C)] for r in range(nids)]
         if obs["wells"] != want_wells:
             bad.append("tables: wells differs from the closed form")
